@@ -255,7 +255,7 @@ WStart(w) ==
 WSize(w) ==
   /\ wk[w].pc = "chkSize"
   /\ IF Size >= Limit THEN Exit(w) ELSE Step(w, "gConn")
-  /\ WAct("WSize", w)
+  /\ act' = [a |-> "WSize", w |-> w, p |-> wk[w].p, full |-> Size >= Limit]
   /\ UNCHANGED <<set, cl, rem, loop, cancelled, seen, dl, conn, evq, view, net, prot, mu, bud>>
 
 WConnectedness(w) ==
@@ -276,7 +276,7 @@ WBackoffConnected(w) ==
 WHasBackoff(w) ==
   /\ wk[w].pc = "chkBo"
   /\ IF HasBackoff(wk[w].p) THEN Exit(w) ELSE Step(w, "gDial")
-  /\ WAct("WHasBackoff", w)
+  /\ act' = [a |-> "WHasBackoff", w |-> w, p |-> wk[w].p, refused |-> HasBackoff(wk[w].p), rec |-> rem[wk[w].p] # NoRec]
   /\ UNCHANGED <<set, cl, rem, loop, cancelled, seen, dl, conn, evq, view, net, prot, mu, bud>>
 
 \* host.Connect is called: the environment decides the outcome; a successful dial connects the peer
@@ -301,7 +301,7 @@ WBackoffDial(w) ==
   /\ wk[w].pc = "boDial"
   /\ SetBackoff(wk[w].p)
   /\ IF wk[w].ok THEN Step(w, AddPc) ELSE Exit(w)
-  /\ WAct("WBackoffDial", w)
+  /\ act' = [a |-> "WBackoffDial", w |-> w, p |-> wk[w].p, ok |-> wk[w].ok]
   /\ UNCHANGED <<set, cl, loop, cancelled, seen, dl, conn, evq, view, net, prot, mu, bud>>
 
 \* Serialized only: take the lock and look at the connection again
